@@ -23,7 +23,13 @@ fn run_real<R: Ord>(leaf: &Leaf, pop: &Vec<Ind<R>>, rng: &mut SplitMix) -> Strin
             Leaf::Best => Best.select(pop, rng).map_err(|e| e.canon()).and_then(idx),
             Leaf::Worst => Worst.select(pop, rng).map_err(|e| e.canon()).and_then(idx),
             Leaf::Random => Random.select(pop, rng).map_err(|e| e.canon()).and_then(idx),
-            Leaf::Tournament(k) => { let t = Tournament::new(NonZeroUsize::new(*k).unwrap()); let mut w = rng.clone(); warm_up(&t, pop, &mut w); t.select(pop, rng).map_err(|e| e.canon()).and_then(idx) }
+            Leaf::Tournament(k) => {
+                // the named constructors must build the tournament they are named after: `binary()` = size 2,
+                // `of_size::<N>()` = size N (used for the sizes for which they exist, `new` otherwise)
+                let t = match *k { 2 if pop.len() % 2 == 0 => Tournament::binary(), 1 => Tournament::of_size::<1>(), 2 => Tournament::of_size::<2>(), 3 => Tournament::of_size::<3>(),
+                    5 => Tournament::of_size::<5>(), 8 => Tournament::of_size::<8>(), _ => Tournament::new(NonZeroUsize::new(*k).unwrap()) };
+                let mut w = rng.clone(); warm_up(&t, pop, &mut w); t.select(pop, rng).map_err(|e| e.canon()).and_then(idx)
+            }
             _ => unreachable!(),
         }
     }));
